@@ -63,8 +63,8 @@ pub fn main_campaign() -> SimCampaign {
             avoid: avoid_all(),
             ..Flags::default()
         },
-        quick: 8000,
-        thorough: 150_000,
+        quick: 20000,
+        thorough: 400000,
         nontrivial,
         probes: vec![],
         shape: None,
